@@ -469,6 +469,30 @@ def _mask_runs(m: int) -> list[tuple[int, int]]:
     return runs
 
 
+def _small_width(v: Any) -> int | None:
+    """k <= 8 such that 0 <= v < 2**k is provable under the current path condition."""
+    if isinstance(v, int):
+        if 0 <= v < 256:
+            return max(1, v.bit_length())
+        return None
+    for k in (1, 2, 3, 4, 8):
+        if _provable(And(v >= 0, v < (1 << k))):
+            return k
+    return None
+
+
+def _bit(v: Any, j: int) -> Any:
+    return mod(floordiv(v, 1 << j), 2)
+
+
+def _and_small(x: Any, y: Any, k: int) -> Any:
+    """x & y where 0 <= y < 2**k: sum over the k low bits (x may be any integer: infinite two's complement)."""
+    total: Any = 0
+    for j in range(k):
+        total = total + ite(And(_bit(x, j) == 1, _bit(y, j) == 1), 1 << j, 0)
+    return total
+
+
 def bitand(a: Any, b: Any) -> Any:
     if isinstance(a, int) and isinstance(b, int):
         return a & b
@@ -489,6 +513,11 @@ def bitand(a: Any, b: Any) -> Any:
             return total
         # negative constant mask: a & b = a - (a & ~b), with ~b >= 0
         return a - bitand(a, ~b)
+    for x, y in ((a, b), (b, a)):
+        if not isinstance(y, SBool):
+            k = _small_width(y)
+            if k is not None:
+                return _and_small(x, y, k)
     return mk_int(_BITAND(SInt.lift(a), SInt.lift(b)))
 
 
@@ -535,6 +564,11 @@ def bitor(a: Any, b: Any) -> Any:
                     return x + y
                 if not isinstance(y, int):
                     break
+    for x, y in ((a, b), (b, a)):
+        if not isinstance(y, (SBool, bool)) and not isinstance(x, (SBool, bool)):
+            k = _small_width(y)
+            if k is not None:
+                return x + y - _and_small(x, y, k)
     return mk_int(_BITOR(SInt.lift(a), SInt.lift(b)))
 
 
@@ -551,6 +585,10 @@ def bitxor(a: Any, b: Any) -> Any:
         return b
     if isinstance(b, int) and b == 0:
         return a
+    for x, y in ((a, b), (b, a)):
+        k = _small_width(y)
+        if k is not None:
+            return x + y - 2 * _and_small(x, y, k)
     return mk_int(_BITXOR(SInt.lift(a), SInt.lift(b)))
 
 
